@@ -576,6 +576,10 @@ class Interp:
 
     def binop(s, op, a, b):
         if isinstance(op, ast.MatMult):
+            hm = s.hooks.get("matmul")
+            if hm is not None:
+                r = hm(s, a, b)
+                if r is not NotImplemented: return r
             return pv_apply(lambda x, y: x if is_opaque(x) else y if is_opaque(y) else arr_matmul(x, y), a, b)
         if isinstance(op, (ast.BitAnd, ast.BitOr)):
             def f(x, y):
